@@ -14,6 +14,26 @@
              kind: pre post skip mounted mountfrom
    output: <id> ACC ret=<1|0|-> tag=<n|-> dst=<ids> cr=<ids|-> ms=<max src reads in flight> md=<max dst ops in flight>  (both '-' unless ret=1)
         or <id> REJ <index> <token>  (first event the transition system refuses) *)
+(* pl=<arch>.<os>.<osver>.<variant>.<feat+feat|->@<node>.<arch|->.<os>,...  : WithTargetPlatform on an index *)
+let platform_field fields =
+  List.fold_left (fun acc f ->
+    if String.length f > 3 && String.sub f 0 3 = "pl=" then Some (String.sub f 3 (String.length f - 3)) else acc) None fields
+let select_of spec =
+  match String.split_on_char '@' spec with
+  | [w; es] ->
+    let ni s = nat_of_int (int_of_string s) in
+    let want = (match String.split_on_char '.' w with
+      | [a; o; v; va; fs] ->
+        { p_arch = ni a; p_os = ni o; p_osver = ni v; p_variant = ni va;
+          p_feats = (if fs = "-" then [] else List.map ni (String.split_on_char '+' fs)) }
+      | _ -> failwith "want") in
+    let entries = if es = "" then [] else List.map (fun e ->
+      match String.split_on_char '.' e with
+      | [n; "-"; _] -> (ni n, None)
+      | [n; a; o] -> (ni n, Some { p_arch = ni a; p_os = ni o; p_osver = O; p_variant = O; p_feats = [] })
+      | _ -> failwith "entry") (String.split_on_char ',' es) in
+    (match select_manifest entries want with Some n -> string_of_int (int_of_nat n) | None -> "-")
+  | _ -> failwith "pl"
 let z_of_int i = if i = 0 then Z0 else if i > 0 then Zpos (pos_of_int i) else Zneg (pos_of_int (-i))
 let ints s = if s = "-" || s = "" then [] else List.map int_of_string (String.split_on_char ',' s)
 let show_ints l = if l = [] then "-" else String.concat "," (List.map string_of_int l)
@@ -50,11 +70,12 @@ let () =
   iter_lines (fun l ->
     match split_ws l with
     | id :: _ :: _ :: "x" :: _ -> Printf.printf "%s UNJUDGED\n" id  (* ExtendedCopy: oracle only *)
-    | id :: sn :: sk :: smode :: sroot :: sc0 :: snodes :: sd0 :: strace :: _ ->
+    | id :: sn :: sk :: smode :: sroot :: sc0 :: snodes :: sd0 :: strace :: rest ->
       (try
+        let sel = match platform_field rest with Some spec -> " sel=" ^ select_of spec | None -> "" in
         if int_of_string sroot < 0 then begin
           (match prologue None None with
-           | None -> if strace = "RT.0" then Printf.printf "%s PROLOGUE-ERR\n" id
+           | None -> if strace = "RT.0" then Printf.printf "%s PROLOGUE-ERR%s\n" id sel
                      else Printf.printf "%s REJ 0 %s\n" id strace
            | Some _ -> failwith "prologue")
         end else
@@ -112,7 +133,7 @@ let () =
           let pres d = sort_uniq_ints (List.map int_of_nat (present_nodes g d)) in
           let cr = if ret = "1" then show_ints (pres (copy_result g d0 (nat_of_int (n + 1)) (nat_of_int root))) else "-" in
           let gauges = if ret = "1" then Printf.sprintf "ms=%d md=%d" !ms !md else "ms=- md=-" in
-          Printf.printf "%s ACC ret=%s tag=%s dst=%s cr=%s %s\n" id ret tg (show_ints (pres st.dst)) cr gauges
+          Printf.printf "%s ACC ret=%s tag=%s dst=%s cr=%s %s%s\n" id ret tg (show_ints (pres st.dst)) cr gauges sel
       with Failure m -> Printf.printf "%s BAD %s\n" id m)
     | [] -> ()
     | _ -> Printf.printf "BADLINE %s\n" l)
